@@ -591,8 +591,27 @@ def codeCfg : Cfg where
     Gen.c20VisitKeys.map (·.2.1) == ["\"Header \" + ref", "\"Parameter \" + ref", "\"RequestBody \" + ref", "\"Response \" + ref",
       "\"Schema \" + ref", "\"SecurityScheme \" + ref", "\"Example \" + ref", "\"Callback \" + ref", "\"Link \" + ref", "\"PathItem \" + ref"]
 
+  swallowOnlyEmpty :=
+    Gen.c20SwallowConds.length == 10 &&
+    Gen.c20SwallowConds.all (fun r => r.1 == "resolvePathItemRef" || r.2.endsWith " && resolved.isEmpty()")
+  internValueGuard :=
+    Gen.c20AddToSpecConds.length == 9 &&
+    Gen.c20AddToSpecConds.all (fun r => ["s", "p", "h", "r", "ss", "e", "l", "c"].any (fun v =>
+      r.2 == v ++ " == nil || " ++ v ++ ".Value == nil || !isExternalRef(" ++ v ++ ".Ref, parentIsExternal)"))
+  headerStack := Gen.c20HeaderStack == [
+    "stack, _ := ctx.Value(headerValidationStackKey{}).([]*Header)",
+    "for _, h := range stack { if h == header { return nil } }",
+    "ctx = context.WithValue(ctx, headerValidationStackKey{}, append(stack[:len(stack):len(stack)], header))"]
+
 /-- the code before a04fe6c / 25200f7 (witnesses only) -/
-def oldCfg : Cfg := { assertChecked := fun _ => false, nilChecked := false, apGuarded := false, keyedByKind := false }
+def oldCfg : Cfg where
+  assertChecked := fun _ => false
+  nilChecked := false
+  apGuarded := false
+  keyedByKind := false
+  swallowOnlyEmpty := false
+  internValueGuard := false
+  headerStack := false
 
 /-! ### the drill-down of the repaired code never panics (no induction over the mutual block is needed:
     a panic arises in one branch of `drillAP` and in the nil-cursor branch of `drillStep` only) -/
@@ -980,11 +999,13 @@ def pathItemContent (b : Built) (st : St) : Nat → Nat → Nat → JV → List 
         | _ => (doc, h, .obj [])
 
 /-- `add<Kind>ToSpec` up to the call of the name resolver: `isExternal`, or the panic -/
-def addToSpec (st : St) (doc h : Nat) (j : JV) (pe : Bool) : Except IHit Bool :=
+def addToSpec (cfg : Cfg) (st : St) (doc h : Nat) (j : JV) (pe : Bool) : Except IHit Bool :=
   match j.refText? with
   | none => .ok false
   | some t =>
-    if isExternalRef t pe then
+    -- 05c5875: `x == nil || x.Value == nil || !isExternalRef(…)` — a reference without value is left alone
+    if cfg.internValueGuard && !st.value.contains (nodeId doc h) then .ok false
+    else if isExternalRef t pe then
       (if st.pathed.contains (nodeId doc h) then .ok true else .error ⟨nodeId doc h, t⟩)
     else .ok false
 
@@ -993,7 +1014,7 @@ mutual
 def iwSchemaRef (b : Built) (st : St) : Nat → Nat → Nat → JV → Bool → List Nat → IM
   | 0, _, _, _, _, v => .ok v
   | fuel + 1, doc, h, j, pe, v =>
-    match addToSpec st doc h j pe with
+    match addToSpec b.cfg st doc h j pe with
     | .error e => .error e
     | .ok isExt =>
       match valueOf b st .schema doc h j with
@@ -1016,7 +1037,7 @@ def iwParameter (b : Built) (st : St) : Nat → Nat → Nat → JV → Bool → 
   | 0, _, _, _, _, v => .ok v
   | fuel + 1, doc, h, jv, pe, v =>
     let sj := (jv.getNN? "schema").getD .null
-    match addToSpec st doc (stepHash h "schema") sj pe with
+    match addToSpec b.cfg st doc (stepHash h "schema") sj pe with
     | .error e => .error e
     | .ok isExt =>
       match iwContent b st fuel doc h jv pe v with
@@ -1054,14 +1075,14 @@ def iwContent (b : Built) (st : St) : Nat → Nat → Nat → JV → Bool → Li
       else
         let hm := stepHash hc kv.1
         let sj := (kv.2.getNN? "schema").getD .null
-        match addToSpec st doc (stepHash hm "schema") sj pe with
+        match addToSpec b.cfg st doc (stepHash hm "schema") sj pe with
         | .error e => .error e
         | .ok isExt =>
           match iwSchemaValue b st fuel doc (stepHash hm "schema") sj (isExt || pe) v with
           | .error e => .error e
           | .ok v1 =>
             -- derefExamples
-            match foldIM (fun (e : String × JV) v => match addToSpec st doc (stepHash (stepHash hm "examples") e.1) e.2 pe with
+            match foldIM (fun (e : String × JV) v => match addToSpec b.cfg st doc (stepHash (stepHash hm "examples") e.1) e.2 pe with
                             | .error x => .error x | .ok _ => .ok v) (objEntries kv.2 "examples") v1 with
             | .error e => .error e
             | .ok v2 =>
@@ -1076,7 +1097,7 @@ def iwHeaders (b : Built) (st : St) : Nat → Nat → Nat → List (String × JV
   | fuel + 1, doc, hh, hs, pe, v =>
     foldIM (fun (kv : String × JV) v =>
       let h := stepHash hh kv.1
-      match addToSpec st doc h kv.2 pe with
+      match addToSpec b.cfg st doc h kv.2 pe with
       | .error e => .error e
       | .ok isExt =>
         match valueOf b st .header doc h kv.2 with
@@ -1089,7 +1110,7 @@ def iwHeaders (b : Built) (st : St) : Nat → Nat → Nat → List (String × JV
 def iwResponse (b : Built) (st : St) : Nat → Nat → Nat → JV → Bool → List Nat → IM
   | 0, _, _, _, _, v => .ok v
   | fuel + 1, doc, h, j, pe, v =>
-    match addToSpec st doc h j pe with
+    match addToSpec b.cfg st doc h j pe with
     | .error e => .error e
     | .ok isExt =>
       match valueOf b st .response doc h j with
@@ -1102,13 +1123,13 @@ def iwResponse (b : Built) (st : St) : Nat → Nat → Nat → JV → Bool → L
           match iwContent b st fuel d h' jv pe' v1 with
           | .error e => .error e
           | .ok v2 =>
-            foldIM (fun (l : String × JV) v => match addToSpec st d (stepHash (stepHash h' "links") l.1) l.2 pe' with
+            foldIM (fun (l : String × JV) v => match addToSpec b.cfg st d (stepHash (stepHash h' "links") l.1) l.2 pe' with
                       | .error x => .error x | .ok _ => .ok v) (objEntries jv "links") v2
 /-- a parameter wrapper in a list: `addParameterToSpec`, then `derefParameter(*param.Value, …)` -/
 def iwParamRef (b : Built) (st : St) : Nat → Nat → Nat → JV → Bool → List Nat → IM
   | 0, _, _, _, _, v => .ok v
   | fuel + 1, doc, h, j, pe, v =>
-    match addToSpec st doc h j pe with
+    match addToSpec b.cfg st doc h j pe with
     | .error e => .error e
     | .ok isExt =>
       match valueOf b st .parameter doc h j with
@@ -1138,7 +1159,7 @@ def iwPaths (b : Built) (st : St) : Nat → Nat → Nat → List (String × JV) 
             | some op =>
               let hm := stepHash hc m
               let rbj := (op.getNN? "requestBody").getD .null
-              match addToSpec st d (stepHash hm "requestBody") rbj pie with
+              match addToSpec b.cfg st d (stepHash hm "requestBody") rbj pie with
               | .error e => .error e
               | .ok rbExt =>
                 match (match valueOf b st .requestBody d (stepHash hm "requestBody") rbj with
@@ -1148,7 +1169,7 @@ def iwPaths (b : Built) (st : St) : Nat → Nat → Nat → List (String × JV) 
                 | .ok v2 =>
                   match foldIM (fun (cb : String × JV) v =>
                           let hcb := stepHash (stepHash hm "callbacks") cb.1
-                          match addToSpec st d hcb cb.2 pie with
+                          match addToSpec b.cfg st d hcb cb.2 pie with
                           | .error e => .error e
                           | .ok cbExt =>
                             match valueOf b st .callback d hcb cb.2 with
@@ -1177,13 +1198,13 @@ def internalizeHit (b : Built) (st : St) : Option IHit :=
   let flat (key : String) (f : Nat → JV → List Nat → IM) (v : List Nat) : IM :=
     foldIM (fun (kv : String × JV) v => f (stepHash (hk key) kv.1) kv.2 v) (objEntries comps key) v
   let addOnly (key : String) (v : List Nat) : IM :=
-    flat key (fun h j v => match addToSpec st 0 h j false with | .error e => .error e | .ok _ => .ok v) v
+    flat key (fun h j v => match addToSpec b.cfg st 0 h j false with | .error e => .error e | .ok _ => .ok v) v
   let steps : List (List Nat → IM) := [
     flat "schemas" (fun h j v => iwSchemaRef b st internFuel 0 h j false v),
     flat "parameters" (fun h j v => iwParamRef b st internFuel 0 h j false v),
     (fun v => iwHeaders b st internFuel 0 (hk "headers") (objEntries comps "headers") false v),
     flat "requestBodies" (fun h j v =>
-      match addToSpec st 0 h j false with
+      match addToSpec b.cfg st 0 h j false with
       | .error e => .error e
       | .ok isExt => match valueOf b st .requestBody 0 h j with
         | none => .ok v
@@ -1191,7 +1212,7 @@ def internalizeHit (b : Built) (st : St) : Option IHit :=
     flat "responses" (fun h j v => iwResponse b st internFuel 0 h j false v),
     addOnly "securitySchemes", addOnly "examples", addOnly "links",
     flat "callbacks" (fun h j v =>
-      match addToSpec st 0 h j false with
+      match addToSpec b.cfg st 0 h j false with
       | .error e => .error e
       | .ok isExt => match valueOf b st .callback 0 h j with
         | none => .ok v
@@ -1283,7 +1304,7 @@ def outcome (cfg : Cfg) (ds : Docs) : Outcome :=
   let hit : Option IHit := match load with | .ok st => internalizeHit b st | _ => none
   let ps := docPositions ds.root
   let cComp := (match load with | .ok _ => true | _ => false) && compositionCycle b ps
-  let cHdr := (match load with | .ok _ => true | _ => false) && headerCycle b ps
+  let cHdr := !cfg.headerStack && (match load with | .ok _ => true | _ => false) && headerCycle b ps
   -- the document is serialised again only when InternalizeRefs returned
   let cCb := match load with | .ok st => hit.isNone && marshalCycle b st | _ => false
   { load := load, hit := hit,
